@@ -88,6 +88,7 @@ def confirm_sequences(ctx, ex, prog, K, viol):
                     alts.append(z3.And(fwd, before == j, same))
                 conds.append(z3.Or(*alts) if alts else z3.BoolVal(False))
             # B has no listener registered by this harness except the default one: its events must not reach A's queue (covered by count)
+            conds.append(earlier_kept(w))
             m = ctx.decide(f"c13.confirms[{conf}]#{pi}", s.pc, z3.And(*conds),
                            group='publisher confirmations reach the current listener unchanged (kind, tag, multiple) and in order; dropped/absent listener => discarded, connection undisturbed',
                            sample={'listener': conf, 'events': len(evs), 'forwarded': len(got)})
@@ -151,6 +152,7 @@ def blocked_sequences(ctx, ex, prog, K, viol):
                         same = z3.And(same, g.payloads[g.disc].fields[0].s == fs.method_field('Connection', 'Blocked', 0, StrSort))
                     alts.append(z3.And(fwd, before == j, same))
                 conds.append(z3.Or(*alts))
+            conds.append(earlier_kept(w))
             m = ctx.decide(f"c13.blocked[{blocked}]#{pi}", s.pc, z3.And(*conds),
                            group='blocked / unblocked notices reach the connection listener in order with the reason text; no/dropped listener => discarded')
             if m is not None:
@@ -192,6 +194,7 @@ def returns(ctx, ex, prog, viol):
                 else:
                     conds.append(z3.BoolVal(len(got) == 0))
                     conds.append(z3.Implies(complete, z3.BoolVal(out == 'Ok')))
+                conds.append(earlier_kept(w))
                 m = ctx.decide(f"c13.return[{shape},{ret}]#{pi}", s.pc, z3.And(*conds),
                                group='a returned message reaches the return listener of its channel with the method fields intact, or is discarded when none is listening; no other queue sees it')
                 if m is not None:
